@@ -58,6 +58,10 @@ func (rn *runner) monitor(s *gi.Session, st *gi.Step) {
 			rn.R.Hit("alloc-checked")
 		}
 	}
+	// a failed allocation never deletes or changes a pre-existing store object (a reservation whose create conflicted!)
+	for _, f := range gi.StoreObjectsTouchedByFailure(st, s.W.StoreMap()) {
+		bad(f.Sig, f.What)
+	}
 	// the caches never hold an address outside the configuration
 	after := gi.ReadMem(s.W.Ipam)
 	for ip := range after.Alloc {
@@ -125,6 +129,7 @@ func (rn *runner) history(length int) {
 	st := s.Do(gi.Op{Kind: "conf", Conf: conf, Plan: gi.NoPlan()})
 	rn.monitor(s, &st)
 	okAllocs, reloads, sinceSync := 0, 0, 0
+	var retry, pendingRetry *gi.Op
 	for i := 1; i < length; i++ {
 		v := s.W.View()
 		var op gi.Op
@@ -171,12 +176,29 @@ func (rn *runner) history(length int) {
 				}
 				op = gi.Op{Kind: "arng", Key: aimKey, Subnet: sub, Ranges: [][][2]uint32{{{ev.IP, ev.IP}}}, Node: "n1", UID: "u1",
 					Plan: gi.NoPlan()}
+				if e.Rng.Intn(2) == 0 {
+					// a second range list in front, so that one object is created before the conflict
+					for _, ip := range gi.SortedIPs(v.Mem.Free) {
+						if ip != ev.IP {
+							op.Ranges = [][][2]uint32{{{ip, ip}}, {{ev.IP, ev.IP}}}
+							break
+						}
+					}
+				}
+				retry = &op
 			}
 		default:
 			op = gi.GenOp(e.Rng, v, 6)
 			if op.Kind == "conf" {
 				conf = op.Conf
 			}
+		}
+		if pendingRetry != nil {
+			// the scheduler retries a failed bind: the SAME request again, right away
+			op, pendingRetry = *pendingRetry, nil
+			rn.R.Hit("retry-of-request-which-hit-a-reservation")
+		} else if retry != nil {
+			pendingRetry, retry = retry, nil
 		}
 		st := s.Do(op)
 		rn.Note(&st)
